@@ -12,6 +12,39 @@ def units_for(cfg, fam, nslices=1, **kw):
     return [dict(cfg=cfg, fam=fam, i=i, n=nslices, **kw) for i in range(nslices)]
 
 
+def sibling_units(groups, fam='sparse', **kw):
+    """One unit per group of sibling configurations (gen.sibling_sets): every member runs every pattern, member after member."""
+    return [dict(cfg=g[0], sibs=list(g[1:]), fam=fam, i=0, n=1, **kw) for g in groups]
+
+
+def iter_cases(shard, ctx, algs, make_iso, arity=2):
+    """(unit, cfg, name, alg, iso, patterns-tuple) for every unit of the shard; a unit with 'sibs' yields each pattern once per member
+    algebra, one after the other, all members living in this process at the same time."""
+    for unit in shard['units']:
+        members = []
+        for cfg in [unit['cfg']] + list(unit.get('sibs', [])):
+            name = gen.cfg_str(cfg)
+            if name not in algs:
+                alg = gen.make_or_skip(ctx, cfg)
+                if alg is None:
+                    continue
+                algs[name] = (alg, make_iso(alg))
+                ctx.count('algebras')
+            members.append((cfg, name) + tuple(algs[name]))
+        if not members:
+            continue
+        pats = iter_patterns(unit, members[0][2], ctx.rng, arity)
+        if len(members) == 1:
+            cfg, name, alg, iso = members[0]
+            for t in pats:
+                yield unit, cfg, name, alg, iso, t
+        else:
+            for t in list(pats):
+                for cfg, name, alg, iso in members:
+                    ctx.count('sibling_algebra_cases')
+                    yield unit, cfg, name, alg, iso, t
+
+
 def iter_patterns(unit, alg, rng, arity=2):
     canon = tuple(alg.canon2bin.values())
     d = alg.d
